@@ -109,7 +109,18 @@ func init() {
 					f.RowsDecl = Pick(r, []int{0, 1, nrows + 1, 255, 256})
 				}
 				f.KnownIdx = r.Chance(0.35)
-				switch r.Intn(5) {
+				switch r.Intn(7) {
+				case 5:
+					// a pkt-line whose 4-character length is not four hex digits but parses as a number
+					f.Variant = "pktline-prefix"
+					f.TimeField = Pick(r, []string{"-001", "-fff", "+005", "-000", "0x05", " 005", "00-1", "-7ff", "+fff", "1e02"}) + Pick(r, []string{"", "a", "hello\n", "0000", "0006a\n0000"})
+				case 6:
+					// a string list / block whose cell length prefix is 0xFFFE or 0xFFFF (the largest legal cells), with
+					// and without the bytes to go with it
+					f.Variant = "strlist-maxlen"
+					f.HeaderCont = r.Range(1, 12)             // cells announced
+					f.HeaderByte = Pick(r, []int{0xfe, 0xff}) // low byte of the length
+					f.GoodIdx = r.Chance(0.3)                 // true: the cell bytes really follow
 				case 0:
 					f.Variant = "commit-time"
 					f.TimeField = Pick(r, []string{"1700000000000 +0", "17000000000 +070", "170000000000000 ", "               0", " 1700000000+0700", "1700000000 +07:0", "1700000000+07000", "0000000000 -9999", "9999999999 +2400", "1700000000 \x00\x00\x00\x00\x00", "-000000001 +0000", "1e9        +0000"})
@@ -529,6 +540,57 @@ func execC17Forged(p *C17Plan, res *Result) {
 	}
 	res.Nontrivial = true
 	s2Claim = 0
+	if f.Variant == "pktline-prefix" {
+		raw := []byte(f.TimeField)
+		if len(raw) < 4 || len(raw) > 100 {
+			res.Invalid("pktline prefix")
+			return
+		}
+		res.fault("forged_pktline_length_prefix", 1)
+		guarded(res, fmt.Sprintf("ReadPktLine of %q", raw), len(raw), func() error {
+			ps := encoding.NewParser(bytes.NewReader(raw))
+			for i := 0; i < 10; i++ {
+				if _, err := pktline.ReadPktLine(ps); err != nil {
+					return err
+				}
+			}
+			return nil
+		})
+		return
+	}
+	if f.Variant == "strlist-maxlen" {
+		if f.HeaderCont < 1 || f.HeaderCont > 64 || (f.HeaderByte != 0xfe && f.HeaderByte != 0xff) {
+			res.Invalid("strlist-maxlen")
+			return
+		}
+		res.fault("forged_strlist_cell_length_ffxx", 1)
+		var sl bytes.Buffer
+		sl.Write([]byte{0, 0, 0, byte(f.HeaderCont)})
+		for i := 0; i < f.HeaderCont; i++ {
+			sl.Write([]byte{0xff, byte(f.HeaderByte)})
+			if f.GoodIdx {
+				sl.Write(bytes.Repeat([]byte{'c'}, 0xff00+f.HeaderByte))
+			}
+		}
+		// as a block of one row
+		blk := append([]byte{0, 0, 0, 1}, sl.Bytes()...)
+		var verr error
+		if !guarded(res, fmt.Sprintf("ValidateBlockBytes of a one-row block whose %d cells announce %#x bytes each (bytes present: %v)", f.HeaderCont, 0xff00+f.HeaderByte, f.GoodIdx), len(blk), func() error {
+			verr = objects.ValidateBlockBytes(blk)
+			return verr
+		}) {
+			return
+		}
+		if f.GoodIdx && verr != nil {
+			res.Violate("legal-block-rejected", "a block of one row with %d cells of %d bytes each is well-formed, but ValidateBlockBytes says: %v", f.HeaderCont, 0xff00+f.HeaderByte, verr)
+			return
+		}
+		if !f.GoodIdx && verr == nil {
+			res.Violate("truncated-block-accepted", "a block whose cells announce %d bytes each but carry none was accepted by ValidateBlockBytes", 0xff00+f.HeaderByte)
+			return
+		}
+		return
+	}
 	if f.Variant == "commit-time" || f.Variant == "long-header" {
 		execC17ForgedBytes(f, res)
 		return
